@@ -3,7 +3,7 @@
 record the outcome in seeded/<id>/meta.json (check_results) and print a table.  Extra checks per seed: EXTRA below."""
 import json, os, re, subprocess, sys, time
 V = "/verif"
-EXTRA = {"C07-m1": ["C05"], "C05-m2": ["C18"], "C06-m1": ["C05", "C09"], "C08-m1": ["C07"]}
+EXTRA = {"C04-m1": ["C19"], "C07-m1": ["C05"], "C05-m2": ["C18"], "C06-m1": ["C05", "C09"], "C08-m1": ["C07"]}
 ids = sys.argv[1:] or sorted(os.listdir(os.path.join(V, "seeded")))
 for sid in ids:
     d = os.path.join(V, "seeded", sid)
@@ -32,5 +32,8 @@ for sid in ids:
         res = ("REPORTED (%d VIOLATION lines%s): %s" % (nv, ", %d no-failing-input-found" % nn if nn else "", first.group(1)[:160] if first else "")
                if rc and rc.group(1) == "1" else "missed (exit %s)" % (rc.group(1) if rc else "?"))
         m.setdefault("check_results", {})[pid] = res
+        head = subprocess.check_output(["git", "-C", "/repo", "rev-parse", "--short", "HEAD"]).decode().strip()
+        vh = subprocess.check_output(["git", "-C", V, "rev-parse", "--short", "HEAD"]).decode().strip()
+        m.setdefault("check_history", []).append({"check": pid, "repo_head": head, "verif_head": vh, "result": res[:120]})
         print("%-8s vs %s: %s  [%.0fs]" % (sid, pid, res[:200], time.time() - t0), flush=True)
         json.dump(m, open(mp, "w"), indent=1)
